@@ -670,10 +670,19 @@ func c07Deliver(c *Ctx) {
 	c.Check(guarded, rule, fname(rd), "data is handed to the caller only while the sticky error is nil", "", "Read can copy record data to the caller although c.in.err is set (bytes after the first rejected record would be delivered)", inputRead.Pos())
 }
 
-var reFieldForm = regexp.MustCompile(`field:(\w+)\((\w+)\)`)
+var reFieldForm = regexp.MustCompile(`field:(\w+)\(([\w.]+)\)`)
 
-// fieldForm: field:seq(hc) -> hc.seq
-func fieldForm(s string) string { return reFieldForm.ReplaceAllString(s, "$2.$1") }
+// fieldForm: field:seq(hc) -> hc.seq, field:cipherSuites(hs.clientHello) -> hs.clientHello.cipherSuites
+func fieldForm(s string) string {
+	for i := 0; i < 6; i++ {
+		t := reFieldForm.ReplaceAllString(s, "$2.$1")
+		if t == s {
+			break
+		}
+		s = t
+	}
+	return s
+}
 
 // c07MacFn: the TLS 1.0+/GMSSL MAC function feeds seq, header and data, in that order and in full, into the keyed
 // hash before taking the sum
